@@ -199,6 +199,16 @@ func genMulti(c *Case, r *simrt.Rand, tier string) {
 				c.Faults = append(c.Faults, Fault{At: r.Intn(4), Kind: pick(r, []string{"llu-err", "llu-stall", "llu-stall"}), Count: 1 + r.Intn(3), Frac: r.Intn(3000)})
 			}
 		}
+		if c.Prop == "C16" && c.Opts.Backing == "store" && r.Chance(0.3) {
+			// a mossStore lower level that fails now and then (transient write /
+			// sync errors, a short burst, a stretch of ENOSPC): rounds fail, are
+			// retried; once the faults have stopped every call must return
+			nf := 1 + r.Intn(3)
+			for i := 0; i < nf; i++ {
+				c.Faults = append(c.Faults, Fault{At: r.Intn(90), Kind: pick(r, []string{"write-eio", "write-short", "sync-eio", "sync-eio", "write-enospc", "stat-eio", "open-eio"}),
+					Count: pick(r, []int{1, 1, 2, 3, 8}), Frac: r.Intn(1000)})
+			}
+		}
 		c.Flags["liveness"] = true
 	}
 }
